@@ -240,7 +240,7 @@ pub fn tracker_stats(world: &World) -> Option<TrackerStats> {
             .iter()
             .map(|c| (c.id, c.name.clone()))
             .collect(),
-        handle_tokens: t.pushed_handles_from_network.iter().copied().collect(),
+        handle_tokens: t.pushed_handles_from_network.keys().copied().collect(),
         sync_materials: t.sync_materials,
         sync_meshes: t.sync_meshes,
         sync_audios: t.sync_audios,
